@@ -96,6 +96,23 @@ ROUND6 = {
  "C20": "Round 6: the method filter rejects functions without parameters; byte scanning of the textual fallbacks is bounds-guarded (shared with C04).",
 }
 
+# clauses added for the reports of hunt round 3 and the late repairs of round 2 (DESIGN.md 5b / 5c); appended after ROUND6
+HUNT3 = {
+ "C01": "Hunt round 3: can_cast and cast of the CST wrappers agree (an `if` between items is reported); control characters in strings are escaped.",
+ "C02": "Hunt round 3: dyn types mentioned only by definitions are declared; members are unique per definition; the entry point takes no "
+        "parameters; Self stays inside trait signatures; strings are valid Go source text; extern functions as values (known finding).",
+ "C04": "Hunt round 3: lowering and derive errors of non-entry files are located in their file.",
+ "C05": "Hunt rounds 2-3: a binder named like a struct stays a binder.",
+ "C06": "Hunt rounds 2-3: field-syntax forms resolve among structs first; a pattern variable named like a struct is bound.",
+ "C07": "Hunt round 3: trait signatures are specialised only when Self is the receiver alone.",
+ "C11": "Hunt round 3: arguments handed down to a projection are applied; a qualified name after `.` is reported; can_cast = cast.",
+ "C12": "Hunt round 3: diagnostics of non-entry files carry positions resolved in their own text (shared with C04).",
+ "C14": "Hunt rounds 2-3: check runs every rejecting stage build runs; both pipelines check the entry point's signature.",
+ "C16": "Hunt rounds 2-3: import cycles are named by check, build and link; acceptance does not depend on item or file order; trait bounds are import-checked.",
+ "C19": "Hunt round 3: variant struct names avoid function and extern type names.",
+ "C20": "Hunt rounds 2-3: hover accepts the node a shorthand field is recorded under; can_cast and cast agree on what an expression is.",
+}
+
 CLAIMED = {
  "C01": dict(
    text="Semantic preservation is NOT decided. Decided on every arm of every pass: pass totality (no catch-all over the input IR, anchor "
@@ -278,6 +295,8 @@ def main():
                 c["text"] = c["text"] + " " + HUNT[pid]
             if pid in ROUND6:
                 c["text"] = c["text"] + " " + ROUND6[pid]
+            if pid in HUNT3:
+                c["text"] = c["text"] + " " + HUNT3[pid]
             m["checks"].append({
                 "property_id": pid,
                 "quick_cmd": f"./check {pid} --tier quick",
